@@ -132,6 +132,11 @@ class _FunctionCall(object):
             # this reconstruction is quite costly. I wonder whether it's a
             # problem though.
 
+            # a method that declares no header gets none, just like over the
+            # wire
+            if not ctx.descriptor.in_header:
+                ctx.in_header = None
+
             # (the flat type info: a bare argument class may have parents)
             in_message = ctx.descriptor.in_message
             _type_info = in_message.get_flat_type_info(in_message)
